@@ -77,7 +77,8 @@ func goByteElems(b []byte, r *rand.Rand) string {
 		if i > 0 {
 			sb.WriteString(", ")
 		}
-		switch r.Intn(4) {
+		// every spelling of an integer constant the language has
+		switch r.Intn(12) {
 		case 0:
 			fmt.Fprintf(&sb, "0x%02x", v)
 		case 1:
@@ -86,6 +87,24 @@ func goByteElems(b []byte, r *rand.Rand) string {
 			} else {
 				fmt.Fprintf(&sb, "%d", v)
 			}
+		case 2:
+			fmt.Fprintf(&sb, "0%o", v) // legacy octal: 033
+		case 3:
+			fmt.Fprintf(&sb, "0o%o", v)
+		case 4:
+			fmt.Fprintf(&sb, "0b%b", v)
+		case 5:
+			fmt.Fprintf(&sb, "0X%X", v)
+		case 6:
+			if v >= 100 {
+				fmt.Fprintf(&sb, "%d_%02d", v/100, v%100) // digit separator: 2_55
+			} else {
+				fmt.Fprintf(&sb, "0x0_%x", v)
+			}
+		case 7:
+			fmt.Fprintf(&sb, "'\\x%02x'", v) // rune literal with an escape
+		case 8:
+			fmt.Fprintf(&sb, "%d + 0", v) // a constant expression
 		default:
 			fmt.Fprintf(&sb, "%d", v)
 		}
